@@ -110,19 +110,20 @@ fn collapse_constant_condition(sexp: Rc<SExp>) -> (bool, Rc<SExp>) {
 // classic optimizer: (a (op SEXP) ENV) => (op (a SEXP ENV)) <- wip
 // classic optimizer: (a (q SEXP) 1) => SEXP
 pub fn remove_double_apply(mut sexp: Rc<SExp>, spine: bool) -> (bool, Rc<SExp>) {
-    // Don't descend into quoted expressions.
-    if spine {
-        if let Ok(NodeSel::Cons(_, _)) =
-            NodeSel::Cons(AtomValue::Here(&[1]), ThisNode).select_nodes(sexp.clone())
-        {
-            return (false, sexp);
-        }
-    }
-
     let mut any_transformation = true;
     let mut was_transformed = false;
 
     while any_transformation {
+        // Don't descend into quoted expressions, including one that a rewrite
+        // in the previous round has just put here.
+        if spine {
+            if let Ok(NodeSel::Cons(_, _)) =
+                NodeSel::Cons(AtomValue::Here(&[1]), ThisNode).select_nodes(sexp.clone())
+            {
+                break;
+            }
+        }
+
         if let SExp::Cons(l, a, b) = sexp.borrow() {
             // These transformations play on each other but finalize together.
             let (a_changed, new_a) = remove_double_apply(a.clone(), true);
